@@ -147,6 +147,15 @@ class BuiltinsMixin:
         if isinstance(src, VTuple):
             return self.ev_List(ast.List(elts=[]), st, fr) if not src.items \
                 else self.list_from(src.items, st)
+        if isinstance(src, VPy) and isinstance(src.obj, tuple) and src.obj \
+                and src.obj[0] in ("dictitems", "dictkeys", "dictvalues"):
+            # a list made from a dict view: iteration / membership over a
+            # snapshot copy of the dict (the order is not modelled)
+            d = src.obj[1]
+            if d.elem is None:
+                return self.bi_list([], kw, st, fr)
+            snap = self.dictop(d, "copy", [], {}, st, fr)
+            return VPy((src.obj[0], snap))
         raise Unsupported(f"list({src})")
 
     def list_from(self, vals, st):
@@ -247,11 +256,26 @@ class BuiltinsMixin:
         o = args[0]
         return VPy(("zset", self.s_arr(o, st), o.elem))
 
+    def bi_select_dict(self, args, kw, st, fr):
+        """spec: the contents of a dict object as a value (keys + map)"""
+        o = args[0]
+        return VPy(("zdict", self.d_dom(o, st), self.d_map(o, st)))
+
     def bi_card(self, args, kw, st, fr):
         return VInt(self.card(args[0], st))
 
     def bi_set(self, args, kw, st, fr):
         if args:
+            src = args[0]
+            un = self.unordered_desc(src, st, fr)
+            if un is not None and un[1] in ("keys", "elems") and \
+                    un[0].elem is not None:
+                cont = un[0]
+                new = self.alloc(st, "set", self.key_tag(cont), "set")
+                self.s_set(new, st, self.members(cont, st))
+                st.write("$card", new.e, st.read("$card", cont.e, "int"),
+                         "int")
+                return new
             raise Unsupported("set(iterable)")
         obj = self.alloc(st, "set", None, "set")
         st.write("$card", obj.e, z3.IntVal(0), "int")
@@ -546,7 +570,9 @@ class BuiltinsMixin:
                 "and its arguments")
             return VStr(f(s, *[v.e for v in vals]))
         if name == "join":
-            raise Unsupported("str.join")
+            self.uni.note_assumption(
+                "str.join results are abstracted to arbitrary strings")
+            return VStr(fresh("joined", STR))
         raise Unsupported(f"str.{name}")
 
     def str_split(self, recv, sep, st):
